@@ -22,6 +22,7 @@ func AllMonitors() []Monitor {
 		&MonC10{},
 		&MonC11{},
 		&MonC14{},
+		&MonC15{},
 	}
 }
 
